@@ -136,6 +136,25 @@ func BuildPool(seed int64, id int) *CallPool {
 		}
 		p.Calls = append(p.Calls, PoolCall{API: "Apply", A: fdoc, B: -1, Patch: pidx, Opts: V5Opts{NegIdx: true, EscapeHTML: true}, Class: "fails-part-way", SharedOpt: -1})
 	}
+	// a document whose result is larger than 64 KiB (retained and re-checked like every other result)
+	{
+		var sb strings.Builder
+		sb.WriteString(`{"big":[`)
+		for i := 0; i < 1800; i++ {
+			if i > 0 {
+				sb.WriteByte(',')
+			}
+			fmt.Fprintf(&sb, `{"i":%d,"s":"xxxxxxxxxxxxxxxxxxxxxxxx<%d>"}`, i, i)
+		}
+		sb.WriteString(`],"k":1}`)
+		bdoc := addIn(sb.String())
+		pi := addIn(`[{"op":"replace","path":"/k","value":2},{"op":"test","path":"/big/7/i","value":7}]`)
+		p.PatchInputs = append(p.PatchInputs, pi)
+		pidx := len(p.PatchInputs) - 1
+		p.Calls = append(p.Calls, PoolCall{API: "Apply", A: bdoc, B: -1, Patch: pidx, Opts: V5Opts{NegIdx: true, EscapeHTML: true}, Class: "large-result", SharedOpt: -1})
+		p.Calls = append(p.Calls, PoolCall{API: "ApplyWithOptions", A: bdoc, B: -1, Patch: pidx, Opts: sharedOptSets[2], Class: "large-result", SharedOpt: 2})
+		p.Calls = append(p.Calls, PoolCall{API: "ApplyIndent", A: bdoc, B: -1, Patch: pidx, Indent: " ", Opts: V5Opts{NegIdx: true, EscapeHTML: true}, Class: "large-result", SharedOpt: -1})
+	}
 	// pointers whose tokens need unescaping, used by several operations and by several patches
 	edoc := addIn(`{"m~1":"old","m/":"other","a~0":{"x":1},"~1":[1,2],"/":{"~":0}}`)
 	for _, et := range []string{
